@@ -121,6 +121,7 @@ def shard(args):
     path = os.path.join(wd, 'b%d.hxb' % s)
     hxb.write_batch(path, cases)
     res = fw.run_hx([bdir + '/hx', 'run', path, '--crash-dir', wd])
+    fw.discard(path)
     out = dict(viol=[], crashes=res['crashes'], hung=res['hung'], n=0, distinct=set(), stats=None, samples=[], monitor=[], ambiguous=0, pipelined=0, notpipelined=0,
                ntx=0, styles={}, nhist={})
     for l in res['lines']:
@@ -190,7 +191,7 @@ def run(tier):
     wd = fw.workdir('C04')
     fw.replay_dir('C04')
     n = SIZES[tier]
-    nsh = fw.NPROC
+    nsh = fw.nshards(n, SIZES['quick'])
     maxn = 8 if tier == 'quick' else 64
     outs = fw.pool_map(shard, [(bdir, wd, fw.seed(), s, nsh, n, maxn) for s in range(nsh)])
     tot = dict(n=0, ntx=0, amb=0, pip=0, npip=0)
